@@ -14,7 +14,7 @@ TECHNIQUE = "bounded exhaustive enumeration of codec layouts/values/orders again
 RULE = ("int<->bytes: sizes 0..9 x (all values for size<=2, boundary alphabet above); single fields: every contiguous mask of "
         "width 1..72 at bit alignment 0..7 x offsets {0,1,5} x trailing bytes {0,2} x prior content {00,FF,A5} outside the field "
         "x values (exhaustive up to the tier's width, alphabet above); 2 and 3 non-overlapping fields x all supply orders; blobs "
-        "b/w/dw x lengths 0..4 x offsets, alone and mixed with a bit field. A case is non-trivial when the value or the prior "
+        "b/w/dw x lengths 0..4 x offsets, alone and mixed with a bit field; 2 and 3 blobs of every kind combination plus a bit field in every supply order. A case is non-trivial when the value or the prior "
         "content is non-zero; distinct = distinct (kind, layout, value, prior, order) tuples.")
 ASSUMPTIONS = [
     "oracle: vf/spec/bits.py (int.from_bytes of the whole buffer, one shift, one mask)",
@@ -167,6 +167,44 @@ def run_case(case, obs=None):
         cv.decode_bits(bytearray(exp), {k: lay[k] for k in order}, res)
         if bytes(res.get("blob", b"?")) != value or (with_bits and res.get("f") != 0xABC):
             out.append(("decode_blob", "%s len=%d off=%d of %s -> %r" % (bk, length, offset, exp.hex(), res)))
+    elif kind == "blobs":
+        # several blobs of different kinds (and a bit field) in one layout, supplied in the given order, with bytes after each
+        _, specs, order, pat = case
+        unit = {"b": 1, "w": 2, "dw": 4}
+        lay, data, exp_parts = {}, {}, []
+        pos = 1
+        for i, (bk, length) in enumerate(specs):
+            n = length * unit[bk]
+            lay["k%d" % i] = (bk, pos, length)
+            data["k%d" % i] = bytearray((0x21 * (i + 1) + j) & 0xFF for j in range(n))
+            exp_parts.append((pos, bytes(data["k%d" % i])))
+            pos += n + 1                              # one untouched byte between fields
+        lay["f"] = [0x0FF0, pos]
+        data["f"] = 0xA5
+        buflen = pos + 2 + 3
+        prior = bytearray(make_prior(buflen, PRIORS[pat], [(pos, 3, 8)]))
+        exp = bytearray(prior)
+        for (p0, bts) in exp_parts:
+            exp[p0:p0 + len(bts)] = bts
+        exp = bits.deposit(bytes(exp), pos, 3, 8, 0xA5)
+        buf = bytearray(prior)
+        keys = ["k%d" % i for i in range(len(specs))] + ["f"]
+        ordered = [keys[i] for i in order]
+        try:
+            cv.encode_dict({k: data[k] for k in ordered}, lay, buf)
+        except Exception as e:   # noqa: BLE001
+            return [("encode_blobs", "layout %r order %r: encode raised %s: %s" % (specs, order, type(e).__name__, e))]
+        if obs is not None:
+            obs.append(bytes(buf))
+        if bytes(buf) != exp:
+            out.append(("encode_blobs", "layout %r order %r prior=%s -> %s expected %s" % (specs, order, bytes(prior).hex(), bytes(buf).hex(), exp.hex())))
+        res = {}
+        cv.decode_bits(bytearray(exp), {k: lay[k] for k in ordered}, res)
+        for i in range(len(specs)):
+            if bytes(res.get("k%d" % i, b"?")) != bytes(data["k%d" % i]):
+                out.append(("decode_blobs", "layout %r order %r: blob %d decoded as %r" % (specs, order, i, res.get("k%d" % i))))
+        if res.get("f") != 0xA5:
+            out.append(("decode_blobs", "layout %r order %r: bit field decoded as %r" % (specs, order, res.get("f"))))
     else:
         raise ValueError(kind)
     return out
@@ -178,7 +216,7 @@ def replay(case):
 
 # ---------------------------------------------------------------------------------
 def partitions(tier):
-    parts = [["int"], ["blob"]]
+    parts = [["int"], ["blob"], ["blobs", 2], ["blobs", 3]]
     for w in range(1, 73):
         parts.append(["single", w])
     widths2 = [1, 3, 8, 12, 16, 24, 32, 40, 64]
@@ -238,6 +276,13 @@ def gen(part, tier):
                             for values in itertools.product(*[_vals2(w) for w in (w1, w2, w3)]):
                                 for order in itertools.permutations(range(3)):
                                     yield ("multi", flds, order, "A5", values, buflen)
+    elif kind == "blobs":
+        nb = part[1]
+        kinds = [("b", 1), ("b", 3), ("w", 1), ("w", 2), ("dw", 1), ("dw", 2)]
+        for specs in itertools.product(kinds, repeat=nb):
+            for order in itertools.permutations(range(nb + 1)):
+                for pat in ("00", "A5"):
+                    yield ("blobs", specs, order, pat)
     elif kind == "blob":
         for bk in ("b", "w", "dw"):
             for length in range(0, 5):
@@ -269,6 +314,8 @@ def _nontrivial(case):
         return case[6] != 0 or case[5] != "00"
     if k == "multi":
         return any(case[4]) or case[3] != "00"
+    if k == "blobs":
+        return True
     return case[2] != 0
 
 
